@@ -36,7 +36,11 @@ var poolNames = []string{"sni", "alpn", "sv13", "sv12+13", "sv12", "grease-ext",
 	// a held config id together with a cipher suite that config does not list (another KDF, an unknown AEAD): no key is selected
 	"ech-known-id-kdf2", "ech-known-id-aead4", "ech-known-id-aead-ffff",
 	// an ALPN list with RFC 8701 GREASE ids (reported like any other id)
-	"alpn-grease"}
+	"alpn-grease",
+	// ECH of type "inner" in an outer hello: illegal for a server that has keys (C04); a server WITHOUT keys passes everything through
+	"ech-type-inner",
+	// a held config id with an EMPTY encapsulated key in a first hello (legal syntax: enc<0..2^16-1>): nothing can be decrypted
+	"ech-known-id-empty-enc"}
 
 const productPool = 13
 
@@ -82,6 +86,10 @@ func poolExt(i int) tlsref.Ext {
 		return tlsref.ECHOuter(1, 4, 42, tlsref.DetBytes("garbage-enc", 32), tlsref.DetBytes("garbage-payload", 150))
 	case 20:
 		return tlsref.ECHOuter(1, 0xffff, 42, tlsref.DetBytes("garbage-enc", 32), tlsref.DetBytes("garbage-payload", 150))
+	case 22:
+		return tlsref.ECHInner()
+	case 23:
+		return tlsref.ECHOuter(1, 1, 42, nil, tlsref.DetBytes("garbage-payload", 150))
 	case 21:
 		return tlsref.ALPN("\x0a\x0a", "h2", "\xea\xea", "http/1.1")
 	case 17:
@@ -92,7 +100,7 @@ func poolExt(i int) tlsref.Ext {
 }
 
 func isSV(i int) bool  { return i == 2 || i == 3 || i == 4 || i == 10 }
-func isECH(i int) bool { return i == 8 || i == 9 || i >= 13 && i <= 20 }
+func isECH(i int) bool { return i == 8 || i == 9 || i >= 13 && i <= 20 || i == 22 || i == 23 }
 func isALPN(i int) bool {
 	return i == 1 || i == 11 || i == 21
 }
@@ -231,6 +239,9 @@ func Run(r *ev.Run) {
 	// ---- ECH extensions that name a held config id but whose encapsulated key cannot be used (wrong length, all-zero,
 	// low-order point): an undecryptable payload like any other, at every position, with and without TLS 1.3 ----
 	for x := productPool; x < len(poolNames); x++ {
+		if x == 22 {
+			continue // only meaningful without keys: see the coalesced family
+		}
 		lists := [][]int{{0, 2, x}, {x, 0, 2}, {0, x, 2}, {x}, {0, 1, 3, x, 5}, {12, x, 4}}
 		if isALPN(x) {
 			lists = [][]int{{0, 2, x}, {x}, {x, 12, 3, 9}, {0, x, 4}}
@@ -277,11 +288,19 @@ func Run(r *ev.Run) {
 		}
 	}
 
+	for _, exts := range [][]int{{0, 2, 22}, {22, 0, 2}, {22}, {0, 4, 22}} {
+		for _, ver := range []uint16{0x0301, 0x0303} {
+			evalHello(r, helloCase{Version: ver, SID: 32, Exts: exts, KeySet: 0}, ks, nil, "type-inner-without-keys")
+		}
+	}
 	// ---- bytes that follow the ClientHello message INSIDE the same handshake record (a second, coalesced handshake message or
 	// garbage: the backend will judge them; the Conn must hand them on like every later byte) ----
 	for _, extra := range [][]byte{{0}, {0x14, 0, 0, 0}, {0x0b, 0, 0, 3, 1, 2, 3}, bytes.Repeat([]byte{0xee}, 40)} {
 		for ksi := range ks {
-			for _, exts := range [][]int{{0, 1, 2}, {0, 2, 9}, {0, 4}} {
+			for _, exts := range [][]int{{0, 1, 2}, {0, 2, 9}, {0, 4}, {0, 2, 22}} {
+				if slices.Contains(exts, 22) && ksi != 0 {
+					continue // type-inner ECH with keys is C04's subject (illegal_parameter)
+				}
 				h := helloCase{Version: 0x0303, SID: 32, Exts: exts, KeySet: ksi}.build()
 				stream := tlsref.Record(22, 0x0301, append(h.Msg(), extra...))
 				res := echx.Feed(stream, ks[ksi])
@@ -290,8 +309,13 @@ func Run(r *ev.Run) {
 				switch {
 				case res.Panic != nil:
 					r.Violation("panic:coalesced", fmt.Sprint(res.Panic), replay)
+				case res.Err != nil && ksi == 0:
+					oc = "coalesced-refused"
+					r.Violation("valid-hello-refused:coalesced:no-keys", fmt.Sprintf("a server WITHOUT keys refused the first record (hello followed by %d bytes): %v - nothing is interpreted without keys", len(extra), res.Err), replay)
 				case res.Err != nil:
-					oc = "coalesced-refused:" + echx.ErrClass(res.Err) // refusing a record that holds more than the hello is a transparent answer too
+					// (with keys, too: the hello is one that is not decrypted, so nothing about it is the Conn's to judge)
+					oc = "coalesced-refused"
+					r.Violation("valid-hello-refused:coalesced:with-keys", fmt.Sprintf("the first record (a hello that is not decrypted, followed by %d bytes) was refused: %v", len(extra), res.Err), replay)
 				case res.Accepted:
 					r.Violation("accepted-garbage:coalesced", "ECH accepted", replay)
 				case len(res.Forwarded) != len(stream) || !bytes.Equal(res.Forwarded[3:], stream[3:]):
